@@ -490,6 +490,13 @@ class Interp(Ops):
         rep = self._repeat_comprehension(node)
         if rep is not None:
             return rep
+        if len(node.generators) == 1 and node.generators[0].ifs and isinstance(node.generators[0].target, ast.Name):
+            g0 = node.generators[0]
+            it = self.ev(g0.iter)
+            if isinstance(it, Abstract) and hasattr(it, "as_range"):
+                lo, hi, stepv = it.as_range(self)
+                if concrete_int(stepv) == 1 and (concrete_int(lo) is None or concrete_int(hi) is None):
+                    return FilteredGen(lo, hi, (lambda i: i), g0.target, node.elt, list(g0.ifs), self.frame)
         if len(node.generators) == 1 and not node.generators[0].ifs and isinstance(node.generators[0].target, ast.Name):
             it = self.ev(node.generators[0].iter)
             if isinstance(it, Abstract) and hasattr(it, "iter_protocol"):
